@@ -22,7 +22,11 @@ from . import core, term, translate
 
 
 K1_FILES = {'consts': ['GenConsts'], 'c16_translate': ['GenBounds'], 'c19_translate': ['GenUriTables'],
-            'c03_translate': ['GenOrdering'], 'c17_translate': ['GenDescriptor'], 'wire_k1': ['GenCommands', 'GenLayout']}
+            'c03_translate': ['GenOrdering'], 'c17_translate': ['GenDescriptor'], 'wire_k1': ['GenCommands', 'GenLayout'],
+            # general source translator (tools/props/src_translate.py), one generator module per area
+            'src_bits_translate': ['GenSrcBits'], 'src_ring_translate': ['GenSrcRing'],
+            'src_broadcast_translate': ['GenSrcBroadcast'], 'src_counters_translate': ['GenSrcCounters'],
+            'src_frame_translate': ['GenSrcFrame'], 'src_pub_translate': ['GenSrcPub'], 'src_image_translate': ['GenSrcImage']}
 
 
 def _case_key(c):
@@ -60,7 +64,8 @@ class Run:
         pid = mod.ID.lower()
         mine = set(getattr(mod, 'K1_DEPENDS', [])) | {'consts', pid, pid + '_translate'}
         closure = set()
-        for f in [mod.PROP_FILE] + list(mod.EVAL_FILES):
+        extra_props = list(getattr(mod, 'EXTRA_PROP_FILES', []))     # further theorem files of the property (e.g. Props/CxxSrc.v)
+        for f in [mod.PROP_FILE] + extra_props + list(mod.EVAL_FILES):
             closure.update(core.coq_requires(f))
         for name, ok, lg in translate.regenerate(details=True):
             uses = any('Generated/%s.v' % g in closure for g in K1_FILES.get(name, []))
@@ -75,6 +80,13 @@ class Run:
         self.proof_ok = ok
         if not ok:
             self.broken.append('theorem file %s: %s' % (mod.PROP_FILE, _last_error(out)))
+        self.extra_ok = {}
+        for f in extra_props:
+            ok, out = core.coq_build([f[:-2] + '.vo'])
+            self.extra_ok[f] = ok
+            if not ok:
+                self.proof_ok = False
+                self.broken.append('theorem file %s: %s' % (f, _last_error(out)))
         bad = core.coq_hygiene()
         if bad:
             raise core.MachineryError('forbidden declarations in the development:\n' + '\n'.join(bad))
@@ -85,7 +97,19 @@ class Run:
             if not ok:
                 self.proof_ok = False
                 self.broken.append('Print Assumptions outside the allow-list or failed: ' + out[-800:])
+            for f in extra_props:
+                if self.extra_ok.get(f):
+                    ok, ax, out = core.print_assumptions(mod.ID + '_' + os.path.basename(f)[:-2], f)
+                    self.axioms.update(ax)
+                    if not ok:
+                        self.proof_ok = False
+                        self.broken.append('Print Assumptions outside the allow-list or failed (%s): %s' % (f, out[-800:]))
         self.obligations, self.dep_files = core.count_obligations(mod.PROP_FILE)
+        for f in extra_props:
+            n, files = core.count_obligations(f)
+            new = [x for x in files if x not in self.dep_files]
+            self.obligations += sum(core.count_obligations_file(x) for x in new)
+            self.dep_files += new
 
     # -- execution -----------------------------------------------------------
     def run_impl(self, cases):
@@ -321,6 +345,8 @@ def _main(mod, tier, seed, replay):
                         'impl': {m: term.show(impl[m][i])[:400] for m in mod.MODES},
                         'model': {m: (term.show(model[m][i])[:400] if model[m][i] is not None else None) for m in mod.MODES}})
     thm = core.theorem_names(mod.PROP_FILE)
+    for f in getattr(mod, 'EXTRA_PROP_FILES', []):
+        thm = thm + core.theorem_names(f)
     axioms_used = sorted({a for v in run.axioms.values() for a in v})
     trusted = [
         'Coq 8.16.1 kernel (coqc; vm_compute used for evaluating cases and for reflection over finite tables; no native_compute)',
